@@ -178,6 +178,12 @@ namespace DFS
   {
     const sector_count_type start = start_sector(), end=last_sector();
     unsigned long len = file_length();
+    if (0 == len)
+      {
+	// An empty file occupies no sectors, so there is nothing to read
+	// (its start sector may even lie beyond the end of the media).
+	return true;
+      }
     for (sector_count_type sec = start; sec <= end; ++sec)
       {
 	assert(sec <= end);
@@ -488,6 +494,8 @@ CatalogFragment::CatalogFragment(DFS::Format format,
       }
     for (const auto& entry : entries())
       {
+	if (entry.file_length() == 0)
+	  continue;		// an empty file occupies no sectors.
 	ParsedFileName file_name;
 	file_name.vol = vol;
 	file_name.dir = entry.directory();
